@@ -116,4 +116,18 @@ PROPS = {
                                   "threshold and idempotence claims over whole runs are decided by the oracle on explored inputs, not yet by a theorem"],
         assumptions=["threshold >= 0 and not NaN; X,Y finite"],
     ),
+    "C10": dict(
+        modules=["GeomVerif.Properties.C10"],
+        n_quick=30000, n_thorough=500000, thorough_seeds=4, min_theorems=6,
+        rule="every triple of the 5x5 integer grid (15625, exhaustive, each run) + random triples at five scales (small integers, 2^20 grid, +-100 "
+             "reals, 1e-90..1e90, UTM-like with two decimals), three quarters of them nearly collinear (c = a + t(b-a) rounded, moved by -3..3 ulps "
+             "in each ordinate), in a random one of the six argument orders, with 0..2 arbitrary extra ordinates; plus the repaired D3 triple. "
+             "Observed: the filter stage (through the verif hook), bigxy.OrientationIndex and xy.OrientationIndex. Oracle: sign of the exact "
+             "rational cross product. non-trivial = every line (distinct inputs counted)",
+        nontrivial=lambda op, inp: True,
+        trusted_base=TB_COMMON + ["modelled: bigxy.orientationIndexFilter (bit-exact Float mirror, compared through the verif hook), fallback = exact rational sign "
+                                  "(math/big at 4200 bits is exact for float64 inputs: trusted)",
+                                  "the float rounding analysis of the filter's error bound is not a theorem; the exact oracle decides it per explored triple"],
+        assumptions=["ordinates zero or of magnitude within [1e-100, 1e100]"],
+    ),
 }
